@@ -13,11 +13,12 @@ META = {
         'zlink-core from which ReadHalf::read is awaited, plus every workspace impl of ReadHalf::read). Obligations: '
         '(R07.1) no progress is held in a future: the locals saved across suspension points are the parameters, `self` and '
         'the awaited sub-future only - no user local that is (re)assigned after a suspension; (R07.2) no store to '
-        'ReadConnection fields before the first suspension (a restarted receive re-executes that prefix); (R07.3) '
+        'ReadConnection fields, and no mutating call on one of them (truncate, clear, ...), before the first suspension (a restarted receive re-executes that prefix); (R07.3) '
         'ReadConnection awaits nothing but ReadHalf::read, and between the completion of the read and the store that '
         'records the received bytes in the connection there is no further suspension; (R07.4) the server\'s select helper '
         'returns at the first completed future: no poll of another future is reachable once one returned Ready (a completed '
-        'receive is never dropped unobserved). A future can only be dropped at a suspension point, so these obligations '
+        'receive is never dropped unobserved); (R07.5) the read-loop guards of C01 (same rule code): a restarted receive skips the transport only when the message '
+        'cursor says a complete frame is buffered. A future can only be dropped at a suspension point, so these obligations '
         'entail that at every cancellation point the connection fields alone describe the bytes received so far. Not '
         'decided: that the eventually returned messages equal the sent ones (that is C01).'),
     'assumptions': [
@@ -62,6 +63,12 @@ def check(fx, rep, tier):
                           'ReadConnection field(s) written before the first suspension (re-executed when the receive is restarted): %s'
                           % sorted({mir.place_last_field(s['place'])[1] for _, _, _, s in st}),
                           {'sites': ['%s:%s' % (bd.file, s.get('line')) for bd, _, _, s in st]})
+                mc = CS.mutating_calls_before_first_yield(crate, co, RC)
+                rep.check(not mc, 'R07.2', '%s|pre-suspension-mutation|%s' % (co.path, cfg), co.where(),
+                          'no mutating call on a ReadConnection field before the first suspension',
+                          'ReadConnection field(s) are mutated by %s before the first suspension: this runs again when an abandoned receive is restarted, while the cursors '
+                          'still describe the partially received frame' % ['%s.%s(..)' % (f, t['callee'].get('name')) for b, t, f in mc],
+                          {'sites': [C.where(co, b) for b, t, f in mc]})
                 leaves = CS.await_leaves(co)
                 bad = [t for b, t in leaves if not ('socket::ReadHalf' in (t['callee'].get('trait') or '') and t['callee'].get('name') == 'read')]
                 rep.check(not bad, 'R07.3', '%s|await-leaves|%s' % (co.path, cfg), co.where(),
@@ -136,4 +143,18 @@ def check(fx, rep, tier):
                           'transport read impl keeps progress in locals %s across a suspension' % [p['name'] for p in prog],
                           {'progress_locals': prog})
     rep.note('receive-path coroutines analysed: %d' % n_path)
+    # R07.5: whether a (re)started receive reads the transport is decided by the message cursor alone (R01.2 of C01, same rule code):
+    # after an abandonment mid-frame the read cursor is > 0 while no frame is complete
+    rep.rule('R07.5', 'the read-loop guards of C01 (R01.2): skip the transport only while a complete frame is buffered (message cursor), EOF and terminator tests')
+    import engine, c01
+    sub = engine.Report('C01', 'quick')
+    for cfg in cfgs:
+        c01.check_crate(fx, sub, fx.crate('zlink_core', cfg), cfg)
+    n5 = 0
+    for i in sub.insts:
+        if i.rule == 'R01.2':
+            n5 += 1
+            (rep.ok if i.ok else rep.bad)('R07.5', i.key, i.where, i.msg if i.ok else i.msg + ' - a receive restarted after an abandonment takes the wrong branch', i.detail)
+    if not n5:
+        rep.bad('R07.5', 'anchor', '-', 'read-loop guard instances not found')
     return META
